@@ -20,6 +20,11 @@ import (
 type src struct {
 	fset  *token.FileSet
 	files map[string]*ast.File // base name -> file
+
+	// bookkeeping of the normalisation pre-pass (normalize.go)
+	helpers      map[string]*ast.FuncDecl // unexported, non-anchored functions / methods that may be inlined
+	expanded     map[ast.Stmt]bool        // statements whose helper calls already have a copy behind them
+	inlinedCalls map[*ast.CallExpr]bool   // helper calls that have a copy of the helper's body behind them
 }
 
 func load(dirs ...string) (*src, error) {
@@ -144,14 +149,18 @@ func (s *src) structDecl(name string) *ast.StructType {
 	return nil
 }
 
-// all collects nodes of type T under root satisfying pred, in source order.
+// all collects nodes of type T under root satisfying pred, in source order. A node that is reachable twice
+// (the normalisation pre-pass references a named closure's literal from its definition AND from its use)
+// is reported once, at its first occurrence.
 func all[T ast.Node](root ast.Node, pred func(T) bool) []T {
 	var out []T
 	if root == nil || isNilNode(root) {
 		return out
 	}
+	seen := map[ast.Node]bool{}
 	ast.Inspect(root, func(n ast.Node) bool {
-		if v, ok := n.(T); ok && (pred == nil || pred(v)) {
+		if v, ok := n.(T); ok && !seen[n] && (pred == nil || pred(v)) {
+			seen[n] = true
 			out = append(out, v)
 		}
 		return true
@@ -165,11 +174,13 @@ func allShallow[T ast.Node](root ast.Node, pred func(T) bool) []T {
 	if root == nil || isNilNode(root) {
 		return out
 	}
+	seen := map[ast.Node]bool{}
 	ast.Inspect(root, func(n ast.Node) bool {
 		if fl, ok := n.(*ast.FuncLit); ok && ast.Node(fl) != root {
 			return false
 		}
-		if v, ok := n.(T); ok && (pred == nil || pred(v)) {
+		if v, ok := n.(T); ok && !seen[n] && (pred == nil || pred(v)) {
+			seen[n] = true
 			out = append(out, v)
 		}
 		return true
